@@ -42,3 +42,5 @@ def run(ctx):
                           % (len(wcorr), nm, k, a[:300], b[:300], sc), no_input=True)
         from .. import foreignread   # FOREIGN-BUT-VALID layouts (SSND offset with chunks behind it, VOC text / repeat blocks, chunks around the audio ...) judged against the CONSTRUCTION
         foreignread.run(ctx, "C05")
+        from .. import handleg       # (round 9) the GENERIC handle machine Sf.HandleG: whole histories on AIFF / CAF / W64 / AVR / IRCAM / PAF / HTK (+ RAW / AU / WAV) byte for byte incl. store dumps
+        handleg.run(ctx, "C05", 150 if q else 3000)
